@@ -398,8 +398,12 @@ func (w *cbWorld) replayModel() modelResult {
 				}
 			case stTripped:
 				if e.t == until && int(e.cmpSeq) < len(w.obs) && w.obs[e.cmpSeq] == stTripped {
-					// exactly at the end of the fallback period: the statement leaves the boundary open
+					// exactly at the end of the fallback period: the statement leaves the boundary open - but a breaker
+					// that itself still reports tripped after this decision has no business passing the request
 					res.edgeBoundary++
+					if passed {
+						add("shield", "request %d decided exactly at the end of the fallback period (t=%v): the breaker still reports tripped and passed it to the protected handler", q.id, e.t)
+					}
 					break
 				}
 				if e.t < until {
